@@ -270,7 +270,7 @@ func (a *agg) fold(r *Result) {
 	}
 }
 
-var goatFrameRe = regexp.MustCompile(`(?m)^(github\.com/avos-io/goat[^\s(]*)\(`)
+var goatFrameRe = regexp.MustCompile(`(?m)^(github\.com/avos-io/goat.*)\([^()]*\)$`)
 
 // classifyCrash looks at a child's stderr after an abnormal exit.
 func classifyCrash(stderr string) (goat bool, key, head string) {
